@@ -350,6 +350,13 @@ def family_cases(ctx):
                               'struct Foo { 1: optional string bar (go.name = "") }\n', 'enum E { A (go.name = "") }\n', 'typedef i32 T (go.name = "")\n',
                               'struct Foo {} (go.name = "__")\n', 'union _u_ { 1: i32 _a_ }\nexception __x { 1: optional i32 a__ }\n']):
         add("underscore-%d" % k, {"prog.thrift": body}, expect="any")
+    # set constants that list an item twice (directly, through a constant, as enum item by name and by value)
+    add("set-dup-items", {"prog.thrift": 'const set<string> s = ["a", "b", "a"]\n'}, expect="any")
+    add("set-dup-default", {"prog.thrift": "struct S { 1: optional set<i32> f = [3, 1, 3] }\n"}, expect="any")
+    add("set-dup-enum", {"prog.thrift": "enum E { A = 1, B = 2 }\nconst set<E> s = [E.A, 1, E.B]\n"}, expect="any")
+    add("set-dup-ref", {"prog.thrift": "const i32 one = 1\nconst set<i32> s = [one, 1]\n"}, expect="any")
+    add("map-dup-keys", {"prog.thrift": 'const map<string, i32> m = {"a": 1, "a": 2}\nstruct S { 1: optional map<i32, string> f = {1: "x", 1: "y"} }\n'}, expect="any")
+    add("set-dup-unhashable", {"prog.thrift": "const set<list<i32>> s = [[1], [1]]\n"}, expect="any")
     # enums
     add("enum-dup-values", {"prog.thrift": "enum E { A = 1, B = 1, C = 2 }\nstruct S { 1: optional E e = E.C }\n"})
     add("enum-dup-values-2", {"prog.thrift": "enum E { A = 0, B = 0, C = 0, D = 5, F = 5, G = 7 }\nconst E c = E.G\n"})
